@@ -743,7 +743,6 @@ func resultValues(call ssa.CallInstruction, idx int) []ssa.Value {
 	return out
 }
 
-
 // deadRecoverBlock: go/ssa gives every function that defers anything a recover block (the place execution resumes
 // after a deferred call recovered from a panic). Unless some deferred closure of the function calls recover(), that
 // block never runs; its return is not a way out of the function.
@@ -801,7 +800,6 @@ func callsRecover(f *ssa.Function, depth int) bool {
 	}
 	return false
 }
-
 
 // localTemp: addr is (an element or field of) a local allocation of this function: a local variable, or the argument
 // array go/ssa builds for a variadic call.
